@@ -76,7 +76,7 @@ NP_KERNELS = [
     ('msm/timescales.py', 'MsmTimes', None, [
         # `_estimate_times` has two result types; it is translated once per value of `return_list`
         ('_estimate_times', dict(
-            lean_name='estimate_times_list', consts={'return_list': True}, ret='L[Int]',
+            lean_name='estimate_times_list', consts={'return_list': True}, ret='L[Int]', fn_params={'estimator': 'ext_estimator'},
             param_names=['trajs_states', 'lagtime', 'start', 'final', 'steps', 'cfg_disable_jit'],
             params=['L[Int]', 'Int', 'L[Int]', 'L[Int]', 'Int', 'Bool'],
             objects={'trajs': {'attrs': {'states': 'L[Int]'}}}, flags={'numba.config.DISABLE_JIT': 'cfg_disable_jit'},
@@ -86,7 +86,7 @@ NP_KERNELS = [
                        'estimator': ('ext_estimator', [py2lean.CUMMAT, 'Int', 'L[Int]', 'L[Int]', 'Int'], 'Dict',
                                      ['cummat', 'start', 'states_from', 'states_to', 'steps'])})),
         ('_estimate_times', dict(
-            lean_name='estimate_times_hist', consts={'return_list': False}, ret='T[L[Rat],L[Int]]',
+            lean_name='estimate_times_hist', consts={'return_list': False}, ret='T[L[Rat],L[Int]]', fn_params={'estimator': 'ext_estimator'},
             param_names=['trajs_states', 'lagtime', 'start', 'final', 'steps', 'cfg_disable_jit'],
             params=['L[Int]', 'Int', 'L[Int]', 'L[Int]', 'Int', 'Bool'],
             objects={'trajs': {'attrs': {'states': 'L[Int]'}}}, flags={'numba.config.DISABLE_JIT': 'cfg_disable_jit'},
@@ -405,6 +405,42 @@ NP_KERNELS = [
         ('openmicrostates', dict(lean_name='openmicrostates_nonint_1d_none', ret='L[L[Int]]', param_names=['file_name', 'dtype'], params=['Int', 'Int'], consts={'limits_file': None},
             facts={"'dtype' not in kwargs": False, "np.issubdtype(kwargs['dtype'], np.integer)": False}, rewrite_stmts={"kwargs['dtype'] = np.int16": 'dtype = 16', 'traj = opentxt_limits(file_name, limits_file, **kwargs)': 'traj = opentxt_limits(file_name, dtype=dtype)'}, xcalls={'opentxt_limits': ('IoOpen', 'opentxt_limits_1d_none')},
             externals={'decl__data': ('ext_opentxt_data', ['Int', 'Int'], 'L[Int]'), 'decl__opentxt': ('ext_opentxt', ['Int'], 'L[Int]')})),
+    ]),
+    ('msm/timescales.py', 'MsmTimesApi', None, [
+        # the public wrappers of `_estimate_times`: which compiled kernel they hand over is visible as the oracle parameter `ext_kernel_wt` / `ext_kernel_tt`
+        ('estimate_waiting_times', dict(lean_name='estimate_waiting_times_list', ret='L[Int]', consts={'return_list': True},
+            param_names=['trajs_states', 'lagtime', 'start', 'final', 'steps', 'cfg_disable_jit'], params=['L[Int]', 'Int', 'L[Int]', 'L[Int]', 'Int', 'Bool'],
+            objects={'trajs': {'attrs': {'states': 'L[Int]'}}}, fn_values={'_estimate_waiting_times': 'ext_kernel_wt'},
+            xcalls={'_estimate_times': ('MsmTimes', 'estimate_times_list')},
+            externals={'decl__kernel': ('ext_kernel_wt', [py2lean.CUMMAT, 'Int', 'L[Int]', 'L[Int]', 'Int'], 'Dict'), 'decl__choice': ('ext_choice', ['L[Int]'], 'Int'),
+                       'decl__cummat': ('ext_get_cummat', ['Int'], py2lean.CUMMAT)})),
+        ('estimate_waiting_times', dict(lean_name='estimate_waiting_times_hist', ret='T[L[Rat],L[Int]]', consts={'return_list': False},
+            param_names=['trajs_states', 'lagtime', 'start', 'final', 'steps', 'cfg_disable_jit'], params=['L[Int]', 'Int', 'L[Int]', 'L[Int]', 'Int', 'Bool'],
+            objects={'trajs': {'attrs': {'states': 'L[Int]'}}}, fn_values={'_estimate_waiting_times': 'ext_kernel_wt'},
+            xcalls={'_estimate_times': ('MsmTimes', 'estimate_times_hist')},
+            externals={'decl__kernel': ('ext_kernel_wt', [py2lean.CUMMAT, 'Int', 'L[Int]', 'L[Int]', 'Int'], 'Dict'), 'decl__choice': ('ext_choice', ['L[Int]'], 'Int'),
+                       'decl__cummat': ('ext_get_cummat', ['Int'], py2lean.CUMMAT)})),
+        ('estimate_transition_times', dict(lean_name='estimate_transition_times_list', ret='L[Int]', consts={'return_list': True},
+            param_names=['trajs_states', 'lagtime', 'start', 'final', 'steps', 'cfg_disable_jit'], params=['L[Int]', 'Int', 'L[Int]', 'L[Int]', 'Int', 'Bool'],
+            objects={'trajs': {'attrs': {'states': 'L[Int]'}}}, fn_values={'_estimate_transition_times': 'ext_kernel_tt'},
+            xcalls={'_estimate_times': ('MsmTimes', 'estimate_times_list')},
+            externals={'decl__kernel': ('ext_kernel_tt', [py2lean.CUMMAT, 'Int', 'L[Int]', 'L[Int]', 'Int'], 'Dict'), 'decl__choice': ('ext_choice', ['L[Int]'], 'Int'),
+                       'decl__cummat': ('ext_get_cummat', ['Int'], py2lean.CUMMAT)})),
+        ('estimate_transition_times', dict(lean_name='estimate_transition_times_hist', ret='T[L[Rat],L[Int]]', consts={'return_list': False},
+            param_names=['trajs_states', 'lagtime', 'start', 'final', 'steps', 'cfg_disable_jit'], params=['L[Int]', 'Int', 'L[Int]', 'L[Int]', 'Int', 'Bool'],
+            objects={'trajs': {'attrs': {'states': 'L[Int]'}}}, fn_values={'_estimate_transition_times': 'ext_kernel_tt'},
+            xcalls={'_estimate_times': ('MsmTimes', 'estimate_times_hist')},
+            externals={'decl__kernel': ('ext_kernel_tt', [py2lean.CUMMAT, 'Int', 'L[Int]', 'L[Int]', 'Int'], 'Dict'), 'decl__choice': ('ext_choice', ['L[Int]'], 'Int'),
+                       'decl__cummat': ('ext_get_cummat', ['Int'], py2lean.CUMMAT)})),
+        # the MSM pathway estimate: the validation of start / final, then the md pathway extraction (an oracle here, translated and proved in MdTimesApi) on the chain of `propagate_MCMC`
+        ('estimate_paths', dict(ret='L[T[L[Int],L[Int]]]', param_names=['trajs_states', 'lagtime', 'start', 'final', 'steps'], params=['L[Int]', 'Int', 'L[Int]', 'L[Int]', 'Int'],
+            objects={'trajs': {'attrs': {'states': 'L[Int]'}}},
+            rewrite_stmts={'return md_estimate_paths(propagate_MCMC(trajs, lagtime, steps), start, final)':
+                           'chain = propagate_MCMC(trajs, lagtime, steps)\nreturn ext_md_estimate_paths(chain, start, final)'},
+            xcalls={'propagate_MCMC': ('MsmMcmcApi', 'propagate_MCMC')},
+            externals={'ext_md_estimate_paths': ('ext_md_estimate_paths', ['L[Int]', 'L[Int]', 'L[Int]'], 'L[T[L[Int],L[Int]]]'),
+                       'decl__choice': ('ext_choice', ['L[Int]'], 'Int'), 'decl__cummat': ('ext_get_cummat', ['Int'], py2lean.CUMMAT),
+                       'decl__propagate': ('ext_propagate', [py2lean.CUMMAT, 'Int', 'Int'], 'L[Int]')})),
     ]),
 ]
 
@@ -806,6 +842,9 @@ class NpFn(Fn):
                 return '(%d : Int)' % node.value, 'Int'
             if isinstance(node.value, float):
                 return rat_lit(node.value), 'Rat'
+        if isinstance(node, ast.UnaryOp) and isinstance(node.op, ast.USub) and isinstance(node.operand, ast.Constant) and isinstance(node.operand.value, int) \
+                and not isinstance(node.operand.value, bool):
+            return '(-%d : Int)' % node.operand.value, 'Int'
         raise Unsupported('%s: default value %s' % (self.name, ast.dump(node)))
 
     def coerce(self, code, frm, to):
@@ -1387,7 +1426,8 @@ class NpFn(Fn):
                     a, _ = sub(shape.elts[0])
                     b, _ = sub(shape.elts[1])
                     if want == ('L', ('L', 'Cx')):      # a float array that will hold NaNs
-                        return pre, '(pyFull2 %s %s (cxOfRat 0))' % (a, b), want
+                        c, t = eff('npZeros2 %s %s (cxOfRat 0)' % (a, b), want)
+                        return pre, c, t
                     return pre, '(pyFull2 %s %s (0 : Rat))' % (a, b), ('L', ('L', 'Rat'))
                 a, _ = sub(shape)
                 return pre, '(pyFull1 %s (0 : Rat))' % a, ('L', 'Rat')
@@ -1634,6 +1674,18 @@ class NpFn(Fn):
                     fitting = [f_ for f_ in variants if fits(f_)]
                     if callee not in fitting and len(fitting) == 1:
                         callee = fitting[0]
+                # a function-valued argument (`estimator=_estimate_waiting_times`): the callee's oracle parameter is instantiated with the CALLER's oracle
+                # that stands for the named function (table `fn_values` of the caller)
+                ext_subst = {}
+                for k_ in list(by_orig):
+                    fa = callee.sig.get('fn_params', {})
+                    if k_ in fa:
+                        v_ = by_orig.pop(k_)
+                        fv = self.sig.get('fn_values', {})
+                        if not (isinstance(v_, ast.Name) and v_.id in fv):
+                            raise Unsupported('%s: function-valued argument %s of %s' % (self.name, k_, callee.name))
+                        ext_subst[fa[k_]] = fv[v_.id]
+                kw = {k_: v_ for k_, v_ in kw.items() if k_ not in callee.sig.get('fn_params', {})}
                 actual = {}
                 cc = dict(callee.sig.get('consts', {}))
                 cc.update(callee.sig.get('kwargs_consts') or {})
@@ -1676,8 +1728,9 @@ class NpFn(Fn):
                     else:
                         raise Unsupported('%s: call of %s misses argument %s' % (self.name, callee.name, p))
                 head = 'MsmVerif.Gen.%s.%s' % (callee.ns, callee.lname_def())
-                ext = ''.join(' ' + x for x in callee.ext_params())
+                ext = ''.join(' ' + ext_subst.get(x, x) for x in callee.ext_params())
                 for x in callee.ext_params():
+                    x = ext_subst.get(x, x)
                     if x not in self.used_ext:
                         self.used_ext.append(x)
                 c, t = eff('%s%s %s' % (head, ext, ' '.join(cs)), callee.ret)
@@ -2182,6 +2235,8 @@ EXT_IMPL = {'ext_peq': 'MsmVerif.GenCodec.oracleVec "peq"', 'ext_argsort': 'MsmV
             'ext_argsort_cx': 'MsmVerif.GenCodec.oracleTableKey "argsort_cx"',
             'ext_log': 'MsmVerif.GenCodec.oracleElemwise "log"',
             'ext_read_csv': 'MsmVerif.GenCodec.oracleConst3 "read_csv"',
+            'ext_kernel_wt': 'MsmVerif.GenCodec.oracleConst5 "estimator"', 'ext_kernel_tt': 'MsmVerif.GenCodec.oracleConst5 "estimator_tt"',
+            'ext_md_estimate_paths': 'MsmVerif.GenCodec.oracleConst3 "md_paths"',
             'ext_opentxt_data': 'MsmVerif.GenCodec.oracleConst2 "data"', 'ext_opentxt_data_2d': 'MsmVerif.GenCodec.oracleConst2 "data"',
             'ext_read_csv_all': 'MsmVerif.GenCodec.oracleConst2 "read_csv"'}
 
